@@ -1197,16 +1197,6 @@ struct const_subarray : array_types<T, D, ElementPtr, Layout> {
 		new_layout.reindex(first);
 		return const_subarray(new_layout, types::base_);
 	}
-	constexpr auto reindexed(index first)& {
-		typename types::layout_t new_layout = this->layout();
-		new_layout.reindex(first);
-		return const_subarray(new_layout, types::base_);
-	}
-	constexpr auto reindexed(index first)&& -> const_subarray {
-		typename types::layout_t new_layout = this->layout();
-		new_layout.reindex(first);
-		return {new_layout, types::base_};
-	}
 
 	// TODO(correaa) : implement reindexed_aux
 	template<class... Indexes>
@@ -2903,8 +2893,7 @@ struct const_subarray<T, 1, ElementPtr, Layout>  // NOLINT(fuchsia-multiple-inhe
 	BOOST_MULTI_HD constexpr auto elements_at(size_type idx)     && -> decltype(auto) { BOOST_MULTI_ASSERT(idx < this->num_elements()); return operator[](idx); }
 	BOOST_MULTI_HD constexpr auto elements_at(size_type idx)      & -> decltype(auto) { BOOST_MULTI_ASSERT(idx < this->num_elements()); return operator[](idx); }
 
-	constexpr auto reindexed(index first) && {return reindexed(first);}
-	constexpr auto reindexed(index first)  & {
+	constexpr auto reindexed(index first) const& {
 		typename types::layout_t new_layout = this->layout();
 		new_layout.reindex(first);
 		return const_subarray{new_layout, types::base_};
